@@ -183,6 +183,8 @@ from . import mustcall
 
 from . import vocab
 
+from . import inventory
+
 OBLIGATIONS = [
     ('C15.O1', 'the recommendation', 'WaitRecommendation has one constructor, guarded by frames_ahead >= 3 and current > next_recommended_sleep, carrying frames_ahead, '
      're-arming next_recommended_sleep = current + 60 on the same path; frames_ahead is refreshed from max_frame_advantage (max over connected players).', o1),
@@ -192,4 +194,5 @@ OBLIGATIONS = [
     ('C15.C', 'lossy integer casts', 'every sign-changing cast (signed -> unsigned; NULL_FRAME is -1) and every narrowing cast to < 32 bits or from 128 bits in the crate is in range by a dominating guard, by the shape of its operand, or listed with a reason in tables/casts.json; see rules/casts.py', casts.rule),
     ('C15.M', 'must-call floor', 'the calls listed for this property in tables/must_call.json are made on every path from the entry of their function to a normal return (interprocedural must-call): a new early return, fast path or extra condition in front of one of them is reported; see rules/mustcall.py', mustcall.rule_for('C15')),
     ('C15.V', 'no unreviewed condition in the pinned helpers', 'for each helper whose body this property\'s rules pin (tables/condition_terms.json), the terms its path conditions are built from (fields, parameters, call results -- no constants, operators or local names) are a subset of the reviewed vocabulary: one more `if` in front of a pinned result (a lock that may time out, "only while an endpoint is running") is reported; see rules/vocab.py', vocab.rule_for('C15')),
+    ('C15.S', 'state inventory', 'every field of the structs this property\'s rules read (tables/state.json) is known, and is written only by its reviewed writers (or helpers only they call): a new field is new state across calls -- a cache, a flag, a stored deadline -- that nothing has shown to stay in step; a new writer is a second place that resets, re-arms or moves something; see rules/inventory.py', inventory.state_rule_for('C15')),
 ]
